@@ -58,6 +58,16 @@ func narrowOpsOf(fn *ssa.Function) (ops []string, at []ssa.Instruction) {
 			}
 			fs, _ := intSize(cv.X.Type())
 			ts, _ := intSize(cv.Type())
+			if lc, isCall := cv.X.(*ssa.Call); isCall && ts >= 32 {
+				// the length of a package-level table fits any 32-bit type
+				if bi, isB := lc.Common().Value.(*ssa.Builtin); isB && bi.Name() == "len" {
+					if ld, isLd := lc.Common().Args[0].(*ssa.UnOp); isLd {
+						if _, isG := ld.X.(*ssa.Global); isG {
+							return
+						}
+					}
+				}
+			}
 			if ts < fs {
 				ops = append(ops, fmt.Sprintf("conv:%s->%s", typeShort(cv.X.Type()), typeShort(cv.Type())))
 				at = append(at, ins)
